@@ -114,9 +114,18 @@ func flatten(v reflect.Value, path string, toks *[]string, ok *bool, ext map[str
 				*toks = append(*toks, join(sf.Name)+"=p")
 				flatten(f.Elem(), join(sf.Name), toks, ok, ext)
 			}
+		case reflect.Struct:
+			if f.Type().PkgPath() != "github.com/moov-io/ach" {
+				continue
+			}
+			*toks = append(*toks, join(sf.Name)+"=p") // a struct-valued field is used like a non-nil pointer to it
+			flatten(f, join(sf.Name), toks, ok, ext)
 		case reflect.Slice:
 			et := f.Type().Elem()
-			if et.Kind() != reflect.Ptr || et.Elem().Kind() != reflect.Struct || et.Elem().PkgPath() != "github.com/moov-io/ach" {
+			isRec := (et.Kind() == reflect.Ptr && et.Elem().Kind() == reflect.Struct && et.Elem().PkgPath() == "github.com/moov-io/ach") ||
+				(et.Kind() == reflect.Struct && et.PkgPath() == "github.com/moov-io/ach") ||
+				(et.Kind() == reflect.Interface && et.PkgPath() == "github.com/moov-io/ach")
+			if !isRec {
 				continue
 			}
 			if f.IsNil() {
@@ -125,11 +134,28 @@ func flatten(v reflect.Value, path string, toks *[]string, ok *bool, ext map[str
 			}
 			*toks = append(*toks, fmt.Sprintf("%s=l:%d", join(sf.Name), f.Len()))
 			for k := 0; k < f.Len(); k++ {
-				if f.Index(k).IsNil() {
-					*ok = false
-					return
+				el := f.Index(k)
+				ep := fmt.Sprintf("%s[%d]", join(sf.Name), k)
+				if el.Kind() == reflect.Interface {
+					if el.IsNil() {
+						*ok = false
+						return
+					}
+					el = el.Elem()
+					if el.Kind() != reflect.Ptr || el.IsNil() {
+						*ok = false
+						return
+					}
+					*toks = append(*toks, ep+".$type=s:"+Hex(el.Elem().Type().Name())) // dynamic type of an interface value
 				}
-				flatten(f.Index(k).Elem(), fmt.Sprintf("%s[%d]", join(sf.Name), k), toks, ok, ext)
+				if el.Kind() == reflect.Ptr {
+					if el.IsNil() {
+						*ok = false
+						return
+					}
+					el = el.Elem()
+				}
+				flatten(el, ep, toks, ok, ext)
 			}
 		}
 	}
